@@ -127,3 +127,17 @@ Definition serial_of_time (secs : Z) : N :=
   else Z.to_N (Z.max 0 (Z.min secs 4294967295)).
 Definition c17_fromtime (negative : bool) (magnitude : N) : N :=
   serial_of_time (if negative then (- Z.of_N magnitude)%Z else Z.of_N magnitude).
+
+(* ---- commit(true) of the in-memory zone (zonetree/in_memory/write.rs commit /
+   bump_soa_serial): `old` is the published SOA serial; `written` is the serial of
+   the SOA the writer put into the new version, if it wrote one (the other SOA
+   fields as published). The serial is bumped exactly when the SOA was left alone. *)
+Definition commit_serial (old : N) (written : option N) : outcome N :=
+  match written with
+  | None => serial_add old commit_bump_addend
+  | Some z => if commit_bumps_iff_soa_untouched
+              then (if z =? old then serial_add old commit_bump_addend else Ok z)
+              else (if z <=? old then serial_add old commit_bump_addend else Ok z)
+  end.
+Definition c17_commit (old : N) (has_written : bool) (z : N) : outcome N :=
+  commit_serial old (if has_written then Some z else None).
